@@ -496,7 +496,7 @@ def gen_structured(rng, g, cfg, name, nodes, prices):
 
 
 def gen_plant(rng, g, cfg, name, power, heat, fuel, prices):
-    """Plant (heat is None) or CHPAsset: unit commitment parameters without start / shutdown ramp profiles"""
+    """Plant (heat is None) or CHPAsset: unit commitment parameters, optionally with start / shutdown ramp profiles"""
     a = {'kind': 'Plant' if heat is None else 'CHPAsset', 'name': name,
          'nodes': [power] + ([heat] if heat is not None else []) + ([fuel] if fuel is not None else [])}
     a['price'] = new_price(rng, g, prices, 0, 6) if rng.random() < 0.7 else None
@@ -535,6 +535,32 @@ def gen_plant(rng, g, cfg, name, power, heat, fuel, prices):
             a['conversion_factor_power_heat'] = rng.choice([0.25, 0.5, 1.0, 0.75])
         if rng.random() < 0.7:
             a['max_share_heat'] = rng.choice([0.5, 1.0, 2.0, 0.25])
+    if rng.random() < cfg.get('p_profile', 0.0):
+        # start / shutdown ramp profiles for the virtual output (MW per step after the start / before turning off), in the frequency of the grid
+        def prof(k):
+            lo = [k8(rng, 0.125, max(a['min_cap'], 0.5)) for _ in range(k)]
+            return lo, [v + k8(rng, 0, 1) for v in lo]
+        S, Dn = rng.choice([(1, 0), (2, 0), (0, 1), (1, 1), (2, 1), (1, 2)])
+        if S:
+            a['start_ramp_lower_bounds'], hi = prof(S)
+            if rng.random() < 0.6:
+                a['start_ramp_upper_bounds'] = hi
+        if Dn:
+            a['shutdown_ramp_lower_bounds'], hi = prof(Dn)
+            if rng.random() < 0.6:
+                a['shutdown_ramp_upper_bounds'] = hi
+        a['ramp_freq'] = g['freq']
+        if rng.random() < 0.5:
+            a['profile_as_array'] = True
+        if rng.random() < cfg.get('p_cap_var', 0.5):
+            # a maximum capacity that changes over the horizon (never below the minimum capacity)
+            mc = gen_interval_param(rng, g, a['min_cap'] + 0.5, a['min_cap'] + 7, dict(cfg, p_gap=0.0), with_end=True)
+            mc['values'] = [max(v, a['min_cap'] + 0.5) for v in mc['values']]
+            a['max_cap'] = mc
+            if 'ramp' not in a:
+                a['ramp'] = max(a['min_cap'], k8(rng, 1, 5))
+        if a.get('time_already_running'):
+            a['time_already_running'] = rng.choice([1, 2, 5])
     s, e = gen_window(rng, g, dict(cfg, p_window=cfg.get('p_window_plant', 0.15), window_kinds=['inside', 'left', 'right']))
     if s is not None:
         a['start'] = s
